@@ -418,6 +418,17 @@ impl ListenerRegistry {
         selected.cloned()
     }
 
+    /// True when `tx`'s route was registered for a media section other than `mid`.
+    fn registered_for_other_mid(
+        &self,
+        tx: &mpsc::Sender<(RtpPacket, SocketAddr)>,
+        mid: &str,
+    ) -> bool {
+        self.routes
+            .iter()
+            .any(|route| route.tx.same_channel(tx) && route.mid.as_deref().is_some_and(|m| m != mid))
+    }
+
     fn bind_ssrc_route(&mut self, ssrc: u32, tx: mpsc::Sender<(RtpPacket, SocketAddr)>) {
         self.by_ssrc.retain(|_, existing| !existing.is_closed());
         self.by_ssrc.insert(ssrc, tx);
@@ -1125,6 +1136,8 @@ impl PacketReceiver for RtpTransport {
                     bind_ssrc = selected.is_some();
                 }
 
+                let by_extension = selected.is_some();
+
                 if selected.is_none() {
                     selected = listeners.by_ssrc.get(&ssrc).cloned();
                     bind_ssrc = false;
@@ -1137,6 +1150,19 @@ impl PacketReceiver for RtpTransport {
 
                 if selected.is_none() {
                     selected = listeners.single_provisional();
+                    bind_ssrc = false;
+                }
+
+                // A packet that names a media section (MID) is dropped rather than
+                // handed, by SSRC / payload type / provisional fallback, to a receiver
+                // that registered for a different section.
+                if !by_extension
+                    && let Some(mid) = &mid_bytes
+                    && let Ok(mid_str) = std::str::from_utf8(mid)
+                    && let Some(tx) = selected.as_ref()
+                    && listeners.registered_for_other_mid(tx, mid_str)
+                {
+                    selected = None;
                     bind_ssrc = false;
                 }
 
